@@ -20,7 +20,7 @@ ID = 'C10'
 BATCH = True
 RULE = ('seeded (hint shape, item hint, object kind, content, configuration, draws): 22 hint shapes from the Iterable/Iterator/'
         'Generator/Container/Reversible/Collection/Mapping/Sequence/Set families, bare, subscripted and nested in Optional/Union; '
-        '19 object kinds incl. one-shot streams (plain, exploding), generators, map/zip/enumerate/reversed objects, StringIO, '
+        '22 object kinds incl. one-shot streams (plain, exploding, sized / sized-reversible without __contains__), generators, map/zip/enumerate/reversed objects, StringIO, '
         'defaultdict and logging containers; six entry points x 3-4 draws. Non-trivial = the object is a one-shot stream or a '
         'defaultdict, or a rejection was explained; distinct = distinct (hint, object kind, content, conf)')
 INTERLEAVING_MEASURE = 'distinct (hint shape, object kind, content, configuration) cases'
@@ -51,15 +51,20 @@ HINTS = {
     'Sequence': lambda t: cabc.Sequence[t], 'list': lambda t: list[t], 'AbstractSet': lambda t: cabc.Set[t],
     'OptIterable': lambda t: typing.Optional[cabc.Iterable[t]], 'UnionIterInt': lambda t: typing.Union[cabc.Iterator[t], int],
     'UnionCollMap': lambda t: typing.Union[cabc.Collection[t], cabc.Mapping[str, t]],
-    'deque': lambda t: collections.deque[t],
+    'deque': lambda t: collections.deque[t], 'ChainMap': lambda t: collections.ChainMap[str, t],
+    'MutableMapping': lambda t: cabc.MutableMapping[str, t],
 }
-KINDS = ['OneShot', 'OneShotExplode', 'generator', 'map', 'zip', 'enumerate', 'reversed', 'StringIO', 'SpyDefaultDict',
+KINDS = ['ChainMapDD', 'OneShot', 'OneShotExplode', 'SizedOneShot', 'SizedOneShotExplode', 'SizedReversibleOneShot', 'generator', 'map', 'zip', 'enumerate', 'reversed', 'StringIO', 'SpyDefaultDict',
          'SpyList', 'SpyTuple', 'SpyDict', 'SpySet', 'SpyDeque', 'SpySeq', 'SpyMap', 'SpyIterable', 'SpyContainer', 'SpyCollection']
 
 
 def generate(rng, run, tier):
     conf = entry.gen_conf(rng, allow_tower=False)
-    return {'hint': rng.choice(list(HINTS)), 'item': rng.choice(list(ITEMS)), 'kind': rng.choice(KINDS),
+    kinds = KINDS
+    if rng.random() < 0.9:
+        # avoid switch for known finding C10-chainmap-over-defaultdict: most cases steer around it
+        kinds = KINDS[1:]
+    return {'hint': rng.choice(list(HINTS)), 'item': rng.choice(list(ITEMS)), 'kind': rng.choice(kinds),
             'content': rng.choice(['good', 'good', 'bad', 'mixed', 'empty']), 'n': rng.choice([1, 2, 3, 5]),
             'conf': conf, 'draws': [0, 1, rng.getrandbits(32)]}
 
@@ -84,8 +89,9 @@ def build(case):
     k = case['kind']
     items = _items(case)
     hashable = [i for i in items if not isinstance(i, list)]
-    if k in ('OneShot', 'OneShotExplode'):
-        x = spies.OneShot(items, explode=(k == 'OneShotExplode'))
+    if k in ('OneShot', 'OneShotExplode', 'SizedOneShot', 'SizedOneShotExplode', 'SizedReversibleOneShot'):
+        cls = spies.OneShot if k.startswith('OneShot') else (spies.SizedReversibleOneShot if 'Reversible' in k else spies.SizedOneShot)
+        x = cls(items, explode=k.endswith('Explode'))
 
         def chk(o):
             if o.log['__next__']:
@@ -124,6 +130,18 @@ def build(case):
         def chk(o):
             if o.tell() != 0:
                 return 'file-like iterable advanced to position %d' % o.tell()
+        return x, chk
+    if k == 'ChainMapDD':
+        # a ChainMap whose first map is an (empty) defaultdict and whose keys all live in its second map
+        d = spies.SpyDefaultDict(int)
+        x = collections.ChainMap(d, {'k%d' % j: it for j, it in enumerate(items)})
+        x.log = d.log
+
+        def chk(o):
+            if collections.defaultdict.__len__(d) != 0:
+                return 'the defaultdict inside the ChainMap grew from 0 to %d entries: %r' % (
+                    collections.defaultdict.__len__(d), list(dict.keys(d)))
+            return _mut(d)
         return x, chk
     if k == 'SpyDefaultDict':
         x = spies.SpyDefaultDict(int)
@@ -182,7 +200,7 @@ def _mut(o):
     return None
 
 
-ONESHOT_KINDS = ('OneShot', 'OneShotExplode', 'generator', 'map', 'zip', 'enumerate', 'reversed', 'StringIO')
+ONESHOT_KINDS = ('OneShot', 'OneShotExplode', 'SizedOneShot', 'SizedOneShotExplode', 'SizedReversibleOneShot', 'generator', 'map', 'zip', 'enumerate', 'reversed', 'StringIO')
 
 
 def execute(case):
@@ -193,9 +211,9 @@ def execute(case):
     hint = HINTS[case['hint']](ITEMS[case['item']])
     if case['kind'] in ONESHOT_KINDS:
         probes['oneshot_objects'] = 1
-    if case['kind'] == 'OneShotExplode':
+    if case['kind'].endswith('Explode'):
         probes['exploding_streams'] = 1
-    if case['kind'] == 'SpyDefaultDict':
+    if case['kind'] in ('SpyDefaultDict', 'ChainMapDD'):
         probes['defaultdicts'] = 1
     if case['kind'].startswith('Spy'):
         probes['logging_containers'] = 1
@@ -250,7 +268,11 @@ def shrink(case, violation):
         yield dict(case, item='int')
 
 
-SIGNATURES = {}
+def _sig_chainmap_dd(case, v):
+    return case.get('kind') == 'ChainMapDD' and v.get('kind') == 'consumed_or_mutated' and 'defaultdict inside the ChainMap' in v.get('detail', '')
+
+
+SIGNATURES = {'chainmap_over_defaultdict': _sig_chainmap_dd}
 
 
 def describe(case):
